@@ -10,6 +10,7 @@
 #include <common/VerifTrace.h>
 #include <logics/ArithLogic.h>
 #include <logics/Logic.h>
+#include <models/ModelBuilder.h>
 #include <tsolvers/egraph/Egraph.h>
 #include <tsolvers/lasolver/LASolver.h>
 #include <tsolvers/stpsolver/IDLSolver.h>
@@ -135,7 +136,21 @@ int main() {
                 int complete; is >> complete;
                 TRes r = solver->check(complete != 0);
                 if (r == TRes::SAT) {
-                    std::cout << (solver->hasNewSplits() ? "unknown" : "sat");
+                    bool const undecided = solver->hasNewSplits();
+                    std::cout << (undecided ? "unknown" : "sat");
+                    if (complete != 0 and not undecided and alogic and dynamic_cast<LASolver *>(solver.get())) {
+                        // the solver's own witness of consistency: the value of every numeric variable (LA only: the difference-logic
+                        // solvers build models only in the state the search leaves them in, with every known atom decided)
+                        try {
+                            solver->computeModel();
+                            ModelBuilder mb(logic);
+                            solver->fillTheoryFunctions(mb);
+                            std::cout << " | model";
+                            for (std::size_t k = 0; k < vars.size(); ++k) {
+                                if (mb.hasVarVal(vars[k])) std::cout << " " << k << "=" << alogic->getNumConst(mb.getVarVal(vars[k])).get_str();
+                            }
+                        } catch (std::exception const & e) { std::cout << " | model-error " << e.what(); }
+                    }
                     // theory propagation: every deduced literal comes with a reason among the asserted literals
                     while (true) {
                         PtAsgn_reason d = solver->getDeduction();
